@@ -26,7 +26,7 @@ META = {
                 "CIQ: the contour-integral whitening K^-1/2 itself (msMINRES / eigh); _NgdInterpTerms is checked with linear_cg replaced by its contract", "rounding"],
     "assumptions": ["reals for floats", "linear_cg(A.matmul, rhs) returns A^-1 rhs (contract stub in _NgdInterpTerms.forward)", "symmetric part of matrix-valued gradients only (the antisymmetric part of d/d(eta2) is not observable)"],
 }
-TIMEOUT_S = {"quick": 500, "thorough": 2400}
+TIMEOUT_S = {"quick": 900, "thorough": 2400}
 
 
 def _upstream(S, shape, name="G"):
